@@ -71,10 +71,19 @@ IReopen(i, on) == /\ Reopen(i)
                   /\ ix.on => on
                   /\ ix' = [ix EXCEPT !.on = on, !.inited = FALSE]
 
-IndexRun == /\ ix.on /\ ~ix.inited
-            /\ ix.last <= disk.id              \* otherwise the indexer waits in recovery mode (after unclean shutdowns only)
-            /\ UNCHANGED vars
-            /\ ix' = RunIndexer(ix)
+(* a run of the background indexer: it indexes from where the index stops up to history n   *)
+(* (the target it captured when it started, or where it was interrupted); initialisation    *)
+(* is complete iff that is the current target (canExit)                                      *)
+IndexRun(n) ==
+  LET target == disk.id
+      begin  == IF ix.last = -1 \/ ix.last + 1 < hist.tail + 1 THEN hist.tail + 1 ELSE ix.last + 1
+  IN  /\ ix.on /\ ~ix.inited
+      /\ ix.last <= disk.id              \* otherwise the indexer waits in recovery mode (after unclean shutdowns only)
+      /\ UNCHANGED vars
+      /\ IF begin > target
+         THEN ix' = RunIndexer(ix) /\ n = ix'.last
+         ELSE /\ n \in begin..target
+              /\ ix' = [IndexRange(ix, hist.recs, begin, n) EXCEPT !.inited = (n = target)]
 
 (* ------------------------------ historical reads ------------------------------ *)
 (* HistoricReader(root): refused unless indexing is initialised and root is the parent of  *)
@@ -103,7 +112,7 @@ INext ==
   \/ \E i \in 0..Len(chain) : \E sts \in Stales(i) : ICommitAt(i, sts)
   \/ \E r \in Worlds : IRecoverTo(r)
   \/ \E i \in 0..Len(chain) : \E on \in BOOLEAN : IReopen(i, on)
-  \/ IndexRun
+  \/ \E n \in -1..MaxId : IndexRun(n)
 
 ISpec == IInit /\ [][INext]_ivars
 
